@@ -11,6 +11,7 @@
  *  event units, executed in order:
  *   q        new user query                       a   oldest transmission in flight answered
  *   s r i    ... answered SERVFAIL/REFUSED/NOTIMP x   60 s pass, every attempt in flight times out
+ *   c        ares_cancel
  *   w<ms>    the clock advances (only when nothing is in flight, otherwise skipped)
  *   e<id,id,..>  ares_set_servers_ports_csv, also while attempts are in flight: the
  *            transmissions on the connections it closes are dropped
@@ -295,6 +296,9 @@ static void run_case(long k, char *line)
       memmove(&g_pend[0], &g_pend[n], sizeof(g_pend[0]) * (size_t)(g_npend - n));
       g_npend -= n;
       ares_process_fd(ch, ARES_SOCKET_BAD, ARES_SOCKET_BAD);
+    } else if (strcmp(u, "c") == 0) {
+      ares_cancel(ch);
+      g_npend = 0;
     } else if (u[0] == 'w' && (u[1] >= '0' && u[1] <= '9')) {
       /* only while nothing is in flight: which attempt a partial advance would time out is
        * not part of the model */
